@@ -149,7 +149,7 @@ def by_attr_body(cfg):
     """findall_by_attr/find_by_attr: nodes whose attribute `name` exists and equals `value`; nodes lacking it are
     skipped (no AttributeError).  Presence per node is a lazy flag, values are unbounded symbolic ints or None."""
     n, pv, children, nodes, s, maxlevel = _tree(cfg)
-    name = ("name", "foo")[nondet_int(0, 1, "attrname")]
+    name = ("name", "a.b")[nondet_int(0, 1, "attrname")]  # a dotted name is an ordinary attribute name for getattr
     ATTR[0] = name
     vkind = nondet_int(0, 1, "valuekind")
     value = nondet_sym(int, "value") if vkind == 0 else None
